@@ -613,6 +613,25 @@ func propC04(c *Ctx) {
 			}
 		}
 		if nested {
+			// a later round trip under another setting of the three switches, with the parser configuration (DefaultRule and the two
+			// limits) left exactly as the calls above left it: a Marshal* / Unmarshal* call that rewrites package configuration as a
+			// side effect breaks the NEXT round trip, which a harness that sets every global before every call never sees
+			later := (cfg + 3 + int(s%5)) & 7
+			func() {
+				defer setSizeSwitches(later)()
+				c.Check("")
+				j2, e1 := sz.MarshalJSON()
+				t2, e2 := sz.MarshalText()
+				var b1, b2 size.Size = 77, 77
+				var e3, e4 error
+				if e1 == nil && e2 == nil {
+					e3, e4 = b1.UnmarshalJSON(j2), b2.UnmarshalText(t2)
+				}
+				if e1 != nil || e2 != nil || e3 != nil || e4 != nil || b1 != sz || b2 != sz {
+					c.Fail("C04.sequence", fmt.Sprintf("size.marshal %d %d json", s, later), "size %d: after a round trip under switches %03b, the round trip under switches %03b (shipped DefaultRule %d and limits set before the first one, not touched since; DefaultRule is now %d, MaxInputLength %d, MaxObjectKeys %d): JSON %q -> %d %v %v, text %q -> %d %v %v",
+						s, cfg, later, int(szInitRule), int(size.DefaultRule), size.MaxInputLength, size.MaxObjectKeys, j2, uint64(b1), e1, e3, t2, uint64(b2), e2, e4)
+				}
+			}()
 			c.Check("")
 			h := szHolder{A: sz, B: []size.Size{sz, 0, sz}, C: map[string]size.Size{"k": sz, "": 1}, D: &sz, E: [2]size.Size{sz, sz}, F: szInner{G: sz},
 				H: map[string][]size.Size{"x": {sz}}, I: []map[string]size.Size{{"y": sz}}, J: sz}
